@@ -111,6 +111,25 @@ def doAll [Inhabited α] (h : Heap α) : Option Nat → List α
   | none => []
   | some r => doLoop h r h.size (nx h r) [vl h r]
 
+
+/-! ### heap-changing ring operations as data (for statements over all operation sequences) -/
+
+inductive ROp where
+  | new (n : Int)
+  | zero
+  | link (r : Nat) (s : Option Nat)
+  | unlink (r : Nat) (n : Int)
+  | set (r : Nat) (v : Int)
+  deriving Repr
+
+/-- pointers must be allocated nodes (Go would dereference nil / garbage otherwise) -/
+def ringStep (h : Heap Int) : ROp → Heap Int
+  | .new n => (Ring.new h n 0).1
+  | .zero => (alloc h 0).1
+  | .link r s => if r < h.size ∧ (∀ s', s = some s' → s' < h.size) then (link h r s).1 else h
+  | .unlink r n => if r < h.size then (unlink h r n).1 else h
+  | .set r v => setVal h r v
+
 /-! ### buffered.go — `Buffered[T]` with `*T` modelled as `Option Nat` -/
 
 structure Buf where
